@@ -823,4 +823,88 @@ theorem accessors_unsplitNetloc (user pass host : Option Str) (port : Option Nat
       simp only [Option.map_some, strToNat_natToStr]
       rw [if_pos (hp n rfl)]
 
+/-! ## character facts -/
+
+theorem lowerChar_toNat (c : Char) :
+    (lowerChar c).toNat = if 65 ≤ c.toNat ∧ c.toNat ≤ 90 then c.toNat + 32 else c.toNat := by
+  unfold lowerChar
+  simp only [char_le_iff]
+  have e1 : 'A'.toNat = 65 := rfl
+  have e2 : 'Z'.toNat = 90 := rfl
+  rw [e1, e2]
+  split
+  · rename_i h; rw [toNat_ofNat_small _ (by omega)]
+  · rfl
+
+theorem upperChar_toNat (c : Char) :
+    (upperChar c).toNat = if 97 ≤ c.toNat ∧ c.toNat ≤ 122 then c.toNat - 32 else c.toNat := by
+  unfold upperChar
+  simp only [char_le_iff]
+  have e1 : 'a'.toNat = 97 := rfl
+  have e2 : 'z'.toNat = 122 := rfl
+  rw [e1, e2]
+  split
+  · rename_i h; rw [toNat_ofNat_small _ (by omega)]
+  · rfl
+
+theorem isControlChar_iff (c : Char) :
+    isControlChar c = true ↔ (c.toNat ≤ 31 ∨ (127 ≤ c.toNat ∧ c.toNat ≤ 159)) := by
+  simp [isControlChar]
+
+theorem isControlChar_lowerChar (c : Char) : isControlChar (lowerChar c) = isControlChar c := by
+  rw [Bool.eq_iff_iff, isControlChar_iff, isControlChar_iff, lowerChar_toNat]
+  split <;> omega
+
+theorem isControlChar_upperChar (c : Char) : isControlChar (upperChar c) = isControlChar c := by
+  rw [Bool.eq_iff_iff, isControlChar_iff, isControlChar_iff, upperChar_toNat]
+  split <;> omega
+
+/-- no C0 / DEL / C1 control character -/
+def NoCtl (s : Str) : Prop := ∀ c ∈ s, isControlChar c = false
+
+theorem NoCtl.append {a b : Str} (ha : NoCtl a) (hb : NoCtl b) : NoCtl (a ++ b) := by
+  intro c hc; rcases List.mem_append.1 hc with h | h
+  · exact ha c h
+  · exact hb c h
+
+theorem NoCtl.of_subset {a b : Str} (h : a ⊆ b) (hb : NoCtl b) : NoCtl a :=
+  fun c hc => hb c (h hc)
+
+theorem NoCtl.lower {a : Str} (ha : NoCtl a) : NoCtl (lower a) := by
+  intro c hc
+  simp only [Py.lower, List.mem_map] at hc
+  obtain ⟨d, hd, rfl⟩ := hc
+  rw [isControlChar_lowerChar]; exact ha d hd
+
+theorem unsafe_of_ctl {c : Char} (h : isControlChar c = false) : isUnsafeUrlChar c = false := by
+  cases hu : isUnsafeUrlChar c with
+  | false => rfl
+  | true =>
+    simp only [isUnsafeUrlChar, Bool.or_eq_true, decide_eq_true_eq] at hu
+    rcases hu with (rfl | rfl) | rfl <;> revert h <;> decide
+
+theorem isSchemeChar_not_ctl {c : Char} (h : isSchemeChar c = true) : isControlChar c = false := by
+  simp only [isSchemeChar, isAsciiAlpha, isAsciiDigit, Bool.or_eq_true, decide_eq_true_eq,
+    char_le_iff] at h
+  have e1 : 'a'.toNat = 97 := rfl
+  have e2 : 'z'.toNat = 122 := rfl
+  have e3 : 'A'.toNat = 65 := rfl
+  have e4 : 'Z'.toNat = 90 := rfl
+  have e5 : '0'.toNat = 48 := rfl
+  have e6 : '9'.toNat = 57 := rfl
+  rw [e1, e2, e3, e4, e5, e6] at h
+  cases hc : isControlChar c with
+  | false => rfl
+  | true =>
+    rw [isControlChar_iff] at hc
+    rcases h with (((h | h) | h) | h) | h
+    · omega
+    · omega
+    · subst h; revert hc; decide
+    · subst h; revert hc; decide
+    · subst h; revert hc; decide
+
+theorem SchemeShaped.noCtl {s : Str} (h : SchemeShaped s) : NoCtl s :=
+  fun c hc => isSchemeChar_not_ctl (schemeShaped_mem h c hc)
+
 end Ural.UrlRoundTrip
